@@ -31,6 +31,10 @@ STALL_S = 400
 RATIO = 2.6
 SLACK = 20000
 
+# families whose work is legitimately super-linear until a fixed limit applies (like nesting below maxNesting): the sparse table
+# fills up to MAX_AUTOCOMPLETED_CELLS = 65536 cells, reached at ~1.3 kB of input; beyond that the work per character falls
+SATURATES_AT = {"table_sparse": 4000}
+
 PRESETS = {
     "cm": {"preset": "commonmark"},
     "js": {"preset": "js-default", "options": {"typographer": True}},
@@ -47,6 +51,7 @@ def _cnt(toks, *types):
 EXPECT = {
     "table_rows": lambda t, h, n: _cnt(t, "tr_open") >= n // 20,
     "table_cols": lambda t, h, n: _cnt(t, "th_open") >= n // 20,
+    "table_sparse": lambda t, h, n: _cnt(t, "td_open") >= min(60000, (n // 6) ** 2 // 2),
     "link_paren_dest": lambda t, h, n: _cnt(t, "link_open") >= 1 or "[a](((" in h,
     "setext_runup": lambda t, h, n: any(x.type == "heading_open" and x.markup == "=" for x in t),
     "pipes": lambda t, h, n: any(x.type == "inline" and len(x.content) >= n // 2 for x in t),
@@ -116,7 +121,7 @@ def run_family(ctx, meter, fam, pname, tier, record=True):
         # below 1 000 characters nesting has not yet saturated at maxNesting (work is legitimately super-linear in the depth
         # until the cut applies), so the ratio cap starts there; smaller steps run under an absolute per-character cap that
         # still turns an exponential blow-up into a verdict within milliseconds
-        if prev is None or rows[-1]["len"] < 1000:
+        if prev is None or rows[-1]["len"] < SATURATES_AT.get(fam, 1000):
             budget = int(4000 * (n_chars + 16) * (maxnest / 20 + 1))
         else:
             budget = int(RATIO * prev * max(1.0, n_chars / max(1, rows[-1]["len"]) / 2.0) + SLACK)
